@@ -1650,4 +1650,95 @@ theorem builder_emits_wire_form (hwf : CfgWF cfg) (b : Builder) (cls : String) (
   rw [hback] at this
   simp only [Builder.run, heval, hret, this, hv]
 
+/-! ## the class table matters only through lookup by id (no other state) -/
+
+section Congr
+variable {cfg cfg' : Cfg}
+
+theorem validateList_congr (t : Ty) (xs : List Json) (h : ∀ x ∈ xs, validate cfg t x = validate cfg' t x) :
+    validateList cfg t xs = validateList cfg' t xs := by
+  induction xs with
+  | nil => simp [validateList]
+  | cons x r ih =>
+    simp only [validateList, h x (by simp), ih (fun y hy => h y (List.mem_cons_of_mem _ hy))]
+
+theorem validateVals_congr (t : Ty) (kvs : List (String × Json)) (h : ∀ p ∈ kvs, validate cfg t p.2 = validate cfg' t p.2) :
+    validateVals cfg t kvs = validateVals cfg' t kvs := by
+  induction kvs with
+  | nil => simp [validateVals]
+  | cons p r ih =>
+    obtain ⟨k, x⟩ := p
+    simp only [validateVals, h (k, x) (by simp), ih (fun y hy => h y (List.mem_cons_of_mem _ hy))]
+
+theorem validateMembers_congr (c : Class) (kvs : List (String × Json))
+    (h : ∀ p ∈ kvs, ∀ t, validate cfg t p.2 = validate cfg' t p.2) :
+    validateMembers cfg c kvs = validateMembers cfg' c kvs := by
+  rw [validateMembers_eq, validateMembers_eq]
+  apply List.map_congr_left
+  intro p hp
+  simp only [memberRes]
+  split <;> simp [h p hp]
+
+/-- **The typed value depends on the class table only through lookup by id.**  Two configurations
+that resolve every class id to the same class (and call the same hooks with the same invariants)
+validate every value of every type identically — whatever the order of the table, whatever other
+classes (same Python NAME, other id) it also holds. -/
+theorem validate_congr (hf : ∀ id, cfg.find id = cfg'.find id) (hc : cfg.calls = cfg'.calls)
+    (hi : cfg.inv = cfg'.inv) : ∀ (n : Nat) (j : Json), sizeOf j < n → ∀ t, validate cfg t j = validate cfg' t j := by
+  intro n
+  induction n with
+  | zero => intro j h; omega
+  | succ n ihn =>
+    intro j hj t
+    induction t with
+    | opt t iht => cases j <;> simp_all [validate]
+    | union a b iha ihb => cases j <;> simp [validate, iha, ihb]
+    | list t _ =>
+      cases j with
+      | arr xs =>
+        by_cases hany : t = .any
+        · simp [validate, hany]
+        · simp only [validate, hany, if_false,
+            validateList_congr t xs (fun x hx => ihn x (by have := sizeOf_arr_mem hx; omega) t)]
+      | _ => simp [validate]
+    | dict t _ =>
+      cases j with
+      | obj kvs =>
+        by_cases hany : t = .any
+        · simp [validate, hany]
+        · simp only [validate, hany, if_false,
+            validateVals_congr t kvs (fun p hp => ihn p.2 (by have := sizeOf_obj_mem hp; omega) t)]
+      | _ => simp [validate]
+    | ref cls =>
+      cases j with
+      | obj kvs =>
+        simp only [validate, ← hf cls]
+        cases hfc : cfg.find cls with
+        | none => rfl
+        | some c =>
+          simp only [assemble, Class.hooked, ← hc, ← hi,
+            validateMembers_congr c kvs (fun p hp t => ihn p.2 (by have := sizeOf_obj_mem hp; omega) t)]
+          rfl
+      | _ => simp [validate]
+    | _ => cases j <;> simp [validate]
+
+end Congr
+
+theorem find?_perm_of_nodup {l l' : List Class} (hp : l.Perm l') (hn : (l.map (·.id)).Nodup) (k : String) :
+    l.find? (fun c => c.id == k) = l'.find? (fun c => c.id == k) := by
+  induction hp with
+  | nil => rfl
+  | cons x _ ih =>
+    simp only [List.map_cons, List.nodup_cons] at hn
+    simp only [List.find?_cons, ih hn.2]
+  | swap x y l =>
+    simp only [List.map_cons, List.nodup_cons, List.mem_cons, not_or] at hn
+    simp only [List.find?_cons]
+    by_cases hx : (x.id == k) = true <;> by_cases hy : (y.id == k) = true <;> simp [hx, hy]
+    have e1 : x.id = k := by simpa using hx
+    have e2 : y.id = k := by simpa using hy
+    exact absurd (e2.trans e1.symm) hn.1.1
+  | trans h1 h2 ih1 ih2 =>
+    rw [ih1 hn, ih2 ((h1.map _).nodup_iff.mp hn)]
+
 end Verif.Lemmas.Schema
